@@ -15,5 +15,17 @@ def run(tier, v, wd, replay=None):
     v.add_tlc(r)
     repo = vlib.scratch_repo(wd, "stub")
     run_vectors(v, wd, repo, "./control/", "TestVerifC08", infile, tags="verif,dae_stub_ebpf", timeout=900)
+    # the size limit at scale: a janitor run that has to evict several entries at once (DnsLru.tla)
+    r = vlib.tlc(wd, "DnsLru", "DnsLru_mc.cfg", timeout=900, workers=4)
+    v.add_tlc(r)
+    if r.violated:
+        raise vlib.Infra("DnsLru.tla violates %s in the model" % r.violated)
+    lfile = os.path.join(wd.path, "c08lru.ndjson")
+    ln = 400 if tier == "quick" else 6000
+    r = vlib.tlc(wd, "DnsLru", "DnsLru_gen.cfg", emit_to=lfile, simulate={"num": ln * 10}, depth=23, workers=4, timeout=1500, max_emit=ln)
+    v.add_tlc(r)
+    if r.violated:
+        raise vlib.Infra("DnsLru.tla violates %s in the model (gen)" % r.violated)
+    run_vectors(v, wd, repo, "./control/", "TestVerifC08Lru", lfile, tags="verif,dae_stub_ebpf", timeout=900, outname="out-lru.json")
     v.assumptions += ["virtual time (testing/synctest): Tick is time.Sleep inside the bubble, the real 30 s janitor ticker fires in virtual time",
                       "answers enter through NormalizeAndCacheDnsResp_ with the NewCache callback shaped like control_plane.go's"]
